@@ -24,7 +24,10 @@ import (
 // per offer - with different channel counts on the two sides; after every offer and at quiescence the manager's channel
 // mapping is read (hook H8) as the set of assigned (source, downstream) pairs.
 
-type offer struct{ l, s int }
+type offer struct {
+	l, s int
+	fwd  bool // not an offer: a pack to forward to the smaller-side channel with this index meets the manager (forwardMsg)
+}
 
 func runMapping(out *cq.Out, ns, nt int, offers []offer, tag string, sameNames bool) {
 	caseNo++
@@ -63,7 +66,43 @@ func runMapping(out *cq.Out, ns, nt int, offers []offer, tag string, sameNames b
 		return cq.List(ps)
 	}
 	var os, gs []string
+	go func() { // error events of forwardMsg ("channel not found")
+		for {
+			select {
+			case <-ctx.Done():
+				return
+			case <-mgr.GetEventChan():
+			}
+		}
+	}()
+	waitTgt := map[string]bool{} // the value-side channels that were offered with a key that had to wait
 	for k, o := range offers {
+		if o.fwd {
+			// the value side is the smaller side
+			x := tgtName(o.s)
+			if ns < nt {
+				x = srcName(o.l)
+			}
+			served := waitTgt[x]
+			reader.VerifChannelMapping(mgr, func(m *util.ChannelMapping, fw map[string]int) {
+				for i := 0; i < ns; i++ {
+					for j := 0; j < nt; j++ {
+						if m.CheckKeyExist(srcName(i), tgtName(j)) && (tgtName(j) == x || srcName(i) == x) {
+							served = true
+						}
+					}
+				}
+			})
+			if served {
+				continue // somebody serves (or waits with) the channel: the pack would be handed to that handler
+			}
+			reader.VerifForwardMsg(mgr, x, api.GetReplicateMsg(srcName(0), "coll", 1, &msgstream.MsgPack{}, "task-"+rid))
+			time.Sleep(8 * time.Millisecond)
+			os = append(os, fmt.Sprintf("EMsgFwd %s", cq.Str(x)))
+			gs = append(gs, grid())
+			out.Count("forwardMsg events")
+			continue
+		}
 		id := int64(k + 1)
 		c := &coll{id: id, tid: 9000 + id, name: fmt.Sprintf("c%d", id),
 			src: [][2]string{{fmt.Sprintf("%s_%dv0", srcName(o.l), id), srcName(o.l)}}, tgt: [][2]string{{fmt.Sprintf("%s_%dv0", tgtName(o.s), 9000+id), tgtName(o.s)}},
@@ -73,6 +112,12 @@ func runMapping(out *cq.Out, ns, nt int, offers []offer, tag string, sameNames b
 		time.Sleep(8 * time.Millisecond)
 		os = append(os, fmt.Sprintf("EOffer %s %s", cq.Str(srcName(o.l)), cq.Str(tgtName(o.s))))
 		gs = append(gs, grid())
+		// every offered value-side channel may be the recorded channel of a waiting handler (forwardMsg would hand the pack to it)
+		if ns < nt {
+			waitTgt[srcName(o.l)] = true
+		} else {
+			waitTgt[tgtName(o.s)] = true
+		}
 		out.Count("offers")
 	}
 	time.Sleep(60 * time.Millisecond)
@@ -89,11 +134,14 @@ func runMapping(out *cq.Out, ns, nt int, offers []offer, tag string, sameNames b
 
 func mappingCorpus(out *cq.Out) {
 	// 6 source channels on 3 downstream channels (2 each): tgt-dml_0 filled, two forwards of tgt-dml_1 pending, two waiters
-	runMapping(out, 6, 3, []offer{{0, 0}, {1, 0}, {5, 1}, {0, 1}, {1, 1}, {2, 0}, {3, 0}, {4, 2}}, "corpus: two pending forwards, two waiters", false)
+	runMapping(out, 6, 3, []offer{{l: 0, s: 0}, {l: 1, s: 0}, {l: 5, s: 1}, {l: 0, s: 1}, {l: 1, s: 1}, {l: 2, s: 0}, {l: 3, s: 0}, {l: 4, s: 2}}, "corpus: two pending forwards, two waiters", false)
 	// the other direction: 3 source channels, 6 downstream channels
-	runMapping(out, 3, 6, []offer{{0, 0}, {0, 1}, {1, 5}, {0, 2}, {0, 3}, {2, 4}, {1, 0}, {2, 1}}, "corpus: more downstream channels than source channels", false)
+	runMapping(out, 3, 6, []offer{{l: 0, s: 0}, {l: 0, s: 1}, {l: 1, s: 5}, {l: 0, s: 2}, {l: 0, s: 3}, {l: 2, s: 4}, {l: 1, s: 0}, {l: 2, s: 1}}, "corpus: more downstream channels than source channels", false)
 	// equal counts: one-to-one
-	runMapping(out, 3, 3, []offer{{0, 0}, {1, 0}, {2, 0}, {1, 1}, {2, 2}, {0, 1}}, "corpus: equal counts", false)
+	runMapping(out, 3, 3, []offer{{l: 0, s: 0}, {l: 1, s: 0}, {l: 2, s: 0}, {l: 1, s: 1}, {l: 2, s: 2}, {l: 0, s: 1}}, "corpus: equal counts", false)
+	// a waiting handler takes a channel that forwardMsg offers (no place is reserved), then a new key is offered with that channel
+	runMapping(out, 3, 3, []offer{{l: 0, s: 0}, {l: 1, s: 0}, {l: 0, s: 1, fwd: true}, {l: 2, s: 1}, {l: 2, s: 2}}, "corpus: unreserved offer of forwardMsg, then a direct offer", false)
+	runMapping(out, 5, 3, []offer{{l: 0, s: 0}, {l: 1, s: 0}, {l: 2, s: 0}, {l: 3, s: 0}, {l: 0, s: 1, fwd: true}, {l: 0, s: 1}, {l: 4, s: 1}}, "corpus: unreserved offer and a counted forward of one channel", false)
 }
 
 func genMapping(a *hx.Args) (int, int, []offer) {
@@ -103,7 +151,7 @@ func genMapping(a *hx.Args) (int, int, []offer) {
 	n := 4 + r.Intn(10)
 	var os []offer
 	for i := 0; i < n; i++ {
-		os = append(os, offer{r.Intn(c[0]), r.Intn(c[1])})
+		os = append(os, offer{l: r.Intn(c[0]), s: r.Intn(c[1]), fwd: i > 1 && r.Intn(7) == 0})
 	}
 	return c[0], c[1], os
 }
@@ -162,14 +210,14 @@ func runRace(out *cq.Out) {
 			return false
 		}
 	}
-	for k, o := range []offer{{0, 0}, {1, 0}, {2, 0}} {
+	for k, o := range []offer{{l: 0, s: 0}, {l: 1, s: 0}, {l: 2, s: 0}} {
 		start(k, o)
 		time.Sleep(8 * time.Millisecond)
 		gs = append(gs, grid())
 	}
 	waitRelease = make(chan struct{})
 	waitHold.Store(true)
-	start(3, offer{0, 1}) // the handler of src-dml_0 exists with another downstream channel: tgt-dml_1 is promised to a waiting handler
+	start(3, offer{l: 0, s: 1}) // the handler of src-dml_0 exists with another downstream channel: tgt-dml_1 is promised to a waiting handler
 	first := parked(2 * time.Second)
 	gs = append(gs, grid())
 	c4 := colls[3]
